@@ -219,6 +219,11 @@ fn files() -> Vec<(String, String)> {
     ]
 }
 
+thread_local! {
+    /// recoverable errors recovered from (scroll/nonstop/batch modes) in the current case
+    static RECOVERED: std::cell::Cell<u64> = const { std::cell::Cell::new(0) };
+}
+
 #[derive(Debug)]
 enum RunResult {
     Ok,
@@ -242,6 +247,7 @@ fn run_once(source: &str, obs: &mut Obs, what: &str) -> Option<RunResult> {
         }
         let r = vm.run::<vstate::VHandlers>();
         let snap = vm.verif_snapshot();
+        RECOVERED.with(|c| c.set(c.get() + vm.state.mon.recovered.get()));
         match r {
             Ok(()) => (Some(Ok(())), None, snap),
             Err(e) => {
@@ -273,6 +279,11 @@ fn run_once(source: &str, obs: &mut Obs, what: &str) -> Option<RunResult> {
         }
     });
     obs.count("runs");
+    let rec = RECOVERED.with(|c| c.replace(0));
+    if rec > 0 {
+        obs.add("recovered_errors", rec);
+        obs.count("runs_with_error_recovery");
+    }
     match r {
         Err(p) => {
             if p.budget {
@@ -381,6 +392,7 @@ impl Monitor for M {
             ("err_kind:token", 10_000),
             ("err_kind:end-of-input", 2_000),
             ("err_kind:failed-precondition", 1_000),
+            ("runs_with_error_recovery", 5_000),
             ("mode:0", 500),
             ("mode:1", 500),
             ("mode:2", 500),
